@@ -33,11 +33,14 @@ def bounded(tier, seed, stop_first=False):
 
 
 def replay_search(obligation, qual, seed, tier):
-    r = bounded('quick', seed, stop_first=True)
+    """a concrete failing input for a failed obligation of `qual`: the first bounded violation on that function (any
+    violation if none names it)"""
+    r = bounded('quick', seed)
     v = r.get('violations') or []
     if not v and tier == 'thorough':
-        v = bounded('thorough', seed, stop_first=True).get('violations') or []
-    return v[0] if v else None
+        v = bounded('thorough', seed).get('violations') or []
+    mine = [x for x in v if x.get('function') == qual]
+    return (mine or v or [None])[0]
 
 
 def replay(payload):
